@@ -28,6 +28,22 @@ C19_HARNESSES = [
 
 CHECKS = {
     "C19": {"harnesses": C19_HARNESSES},
+    "C06": {
+        "harnesses": [
+            H("sched", "sch_loop", 3, 4),
+            H("sched", "sch_loop_stop", 3, 5),
+            H("sched", "sch_loop_token", 3, 5),
+            H("sched", "sch_single", 3, 4),
+            H("sched", "sch_pool", 3, 4, args=[1, 1]),
+            H("sched", "sch_pool", 2, 3, args=[2, 1], **{"cache-bits": 24}),
+            H("sched", "sch_pool", 1, 2, args=[2, 2], thorough_only=True, **{"cache-bits": 24}),
+            H("sched", "sch_pool_stop", 3, 5),
+            H("sched", "sch_newthread", 3, 4),
+            H("sched", "sch_timed_plain", 2, 3),
+            H("sched", "sch_tramp"),
+            H("sched", "sch_any", 3, 4),
+        ],
+    },
     "C09": {
         "harnesses": [H("futures", "fut_v2", 3, 4, args=[m, o]) for m in (0, 1, 2) for o in (0, 1, 2)] + [
             H("futures", "fut_v1", 2, 3, args=[0, 0]),
